@@ -470,7 +470,7 @@ BOUNDED = {
                  what="list_indexed_access end to end through the public SemTypeContext::indexed_access (the per-atom member type is proved in unit U10, termination and panic-freedom of the walk over the diagram in U9, the walk's RESULT is not under contract): T[i], T[i | j], T[number except i] and T[number except i | j] for tuple types with a prefix up to length 3 over {string, number, boolean} and an optional rest, i, j in 0..=4 (3600 questions), and the same key sets on unions of two such tuple types - two atoms in the diagram - against the union of the two answers (8892 questions), against the item types at the selected indices"),
             dict(family="mapidx", obligation="access/bounded-standin/mapidx.mapping_indexed_access",
                  known_cases="contracts/known_mapidx_cases.txt",
-                 what="mapping_indexed_access (object property access, not under contract: it iterates BTreeMaps through iterator adapters) through the public SemTypeContext::indexed_access: object atoms with declared keys among {a: string, b: number} and optionally a string index signature, indexed by every non-empty key set over {a, b, c}, by `string`, and by `string except` each of those sets, 180 questions, against the union of the types of the selected declared keys and, when an undeclared key is selected, the signature's value type"),
+                 what="mapping_indexed_access (object property access, not under contract: it iterates BTreeMaps through iterator adapters) through the public SemTypeContext::indexed_access: object atoms with declared keys among {a: string, b: number} and optionally a string index signature, indexed by every non-empty key set over {a, b, c}, by `string`, and by `string except` each of those sets (180 questions), and the same on unions of two such object types (420 questions), against the union of the types of the selected declared keys and, when an undeclared key is selected, the signature's value type"),
             dict(family="front", args_quick=["--idx"], args_thorough=["--idx"],
                  obligation="frontend/bounded-standin/idx.printed_type",
                  known_cases="contracts/known_idx_cases.txt",
